@@ -35,7 +35,30 @@ const (
 
 var opNames = []string{"avail", "setlist", "advance", "runtimer", "current"}
 
-var universe = []string{"a", "b", "c", "d", "e", "zz-unknown"}
+// index 5 is never listed (reports for an unknown endpoint); 6.. are used by
+// "big" plans only (lists of up to 12 endpoints)
+var universe = []string{"a", "b", "c", "d", "e", "zz-unknown", "f", "g", "h", "i", "j", "k", "l"}
+
+var bigIdx = []int{0, 1, 2, 3, 4, 6, 7, 8, 9, 10, 11, 12}
+
+// randListBig: 1-12 of 12 names, biased to cross the 8/9 boundary both ways.
+//
+//go:norace
+func randListBig(r *rand.Rand, allowEmpty bool) []int {
+	if allowEmpty && r.IntN(15) == 0 {
+		return []int{}
+	}
+	n := 1 + r.IntN(12)
+	if r.IntN(2) == 0 {
+		n = 7 + r.IntN(5)
+	}
+	p := r.Perm(len(bigIdx))[:n]
+	out := make([]int, n)
+	for i, x := range p {
+		out[i] = bigIdx[x]
+	}
+	return out
+}
 
 type Op struct {
 	K    int   `json:"k"`
@@ -61,6 +84,7 @@ type Plan struct {
 	// it again; Scribble n > 0: it overwrites that slice after every n-th call
 	Alias    bool `json:"alias,omitempty"`
 	InitDup  int  `json:"init_dup,omitempty"`
+	Big      bool `json:"big,omitempty"` // endpoint lists of up to 12 names
 	Scribble int  `json:"scribble,omitempty"`
 	Ops      []Op `json:"ops"`
 }
@@ -94,12 +118,21 @@ func randList(r *rand.Rand, allowEmpty bool) []int {
 func Generate(r *rand.Rand, profile string, concurrent bool) *Plan {
 	p := &Plan{Profile: profile, Concurrent: concurrent}
 	p.Init = randList(r, false)
+	if !concurrent && profile != "med" && r.IntN(8) == 0 {
+		// scale: long endpoint lists; no recovery timeout (the set-valued model
+		// doubles per newly listed endpoint otherwise)
+		p.Big = true
+		p.Init = randListBig(r, false)
+	}
 	if !concurrent && r.IntN(10) == 0 {
 		p.InitDup = 1 + r.IntN(5)
 	}
 	rs := []int{0, 0, 10, 20, 50}
 	ds := []int{0, 10, 20, 40, 70}
 	p.RMs = rs[r.IntN(len(rs))]
+	if p.Big {
+		p.RMs = 0
+	}
 	switch profile {
 	case "me0":
 		p.DMs = 0
@@ -129,6 +162,9 @@ func Generate(r *rand.Rand, profile string, concurrent bool) *Plan {
 		case x < 50:
 			o.K = OpAvail
 			o.E = r.IntN(5)
+			if p.Big {
+				o.E = bigIdx[r.IntN(len(bigIdx))]
+			}
 			if r.IntN(15) == 0 {
 				o.E = 5 // unknown endpoint
 			}
@@ -136,6 +172,9 @@ func Generate(r *rand.Rand, profile string, concurrent bool) *Plan {
 		case x < 65:
 			o.K = OpSetList
 			o.List = randList(r, true)
+			if p.Big {
+				o.List = randListBig(r, true)
+			}
 			if !concurrent && r.IntN(6) == 0 {
 				o.Dup = 1 + r.IntN(5)
 			}
